@@ -177,6 +177,58 @@ PatMatch(p, w) == CASE p.d = "star"  -> StartsAli(w)
 LineMatch(l, w) == \E i \in DOMAIN l : PatMatch(l[i], w)
 LineEntry(k) == k.entry \in {"sshsig_key", "sshsig_caline"}
 
+\* (B'') pattern LISTS with negation: the principals field of an allowed-
+\* signers line and its namespaces="..." option are comma separated lists of
+\* wildcard patterns, each possibly negated with `!'.  A list matches iff
+\* SOME positive pattern matches and NO negated one does - so a list made of
+\* negated patterns only (or an empty one) matches nothing.
+PatAtoms == {"alice", "bob", "ali*", "*"}
+PItems == [neg : BOOLEAN, a : PatAtoms]
+PLists == {<<x>> : x \in PItems} \cup {<<x, y>> : x \in PItems, y \in PItems}
+NsAtoms == {"file", "git", "fi*", "*"}        \* the signature's namespace is "file"
+NItems == [neg : BOOLEAN, a : NsAtoms]
+NLists == {<<x>> : x \in NItems} \cup {<<x, y>> : x \in NItems, y \in NItems}
+NoNs == <<[neg |-> FALSE, a |-> "<absent>"]>>     \* no namespaces= option
+EmptyNs == <<[neg |-> FALSE, a |-> ""]>>          \* namespaces=""
+PosAll == <<[neg |-> FALSE, a |-> "*"]>>
+PatWanted == {Alice, Bob, Empty, [b |-> "alice", d |-> "suffix"]}
+
+AtomMatch(a, w) == CASE a = "alice" -> w = Alice
+                     [] a = "bob"   -> w = Bob
+                     [] a = "ali*"  -> StartsAli(w)
+                     [] a = "*"     -> TRUE
+NsAtomMatch(a) == a \in {"file", "fi*", "*"}
+PListMatch(l, w) ==
+    LET pos == \E i \in DOMAIN l : ~l[i].neg /\ AtomMatch(l[i].a, w)
+        neg == \E i \in DOMAIN l : l[i].neg /\ AtomMatch(l[i].a, w)
+        nopos == \A i \in DOMAIN l : l[i].neg
+    IN ~neg /\ (pos \/ (Variant = "NegOnlyMatchesAll" /\ nopos))
+NListMatch(l) ==
+    IF l = NoNs THEN TRUE
+    ELSE IF l = EmptyNs THEN FALSE
+    ELSE LET pos == \E i \in DOMAIN l : ~l[i].neg /\ NsAtomMatch(l[i].a)
+             neg == \E i \in DOMAIN l : l[i].neg /\ NsAtomMatch(l[i].a)
+             nopos == \A i \in DOMAIN l : l[i].neg
+         IN ~neg /\ (pos \/ (Variant = "NegOnlyMatchesAll" /\ nopos))
+\* what the documented rule says (no variant)
+PRule(l, w) == (\E i \in DOMAIN l : ~l[i].neg /\ AtomMatch(l[i].a, w))
+               /\ ~(\E i \in DOMAIN l : l[i].neg /\ AtomMatch(l[i].a, w))
+NRule(l) == l = NoNs \/ (l # EmptyNs /\ (\E i \in DOMAIN l : ~l[i].neg /\ NsAtomMatch(l[i].a))
+                                      /\ ~(\E i \in DOMAIN l : l[i].neg /\ NsAtomMatch(l[i].a)))
+
+PatBase == [entry : {"sshsig_pat"}, ctype : {"user"}, want : {"same"}, list : {<<>>},
+            after : {0}, before : {5}, now : {3}]
+PatCases ==
+    \* every principals list x every wanted identity, no namespaces option
+    [entry : {"sshsig_pat"}, ctype : {"user"}, want : {"same"}, list : {<<>>},
+     after : {0}, before : {5}, now : {3}, ca : BOOLEAN, plist : PLists,
+     nslist : {NoNs}, wanted : PatWanted]
+      \cup
+    \* every namespaces list (and the empty one), principals "*"
+    [entry : {"sshsig_pat"}, ctype : {"user"}, want : {"same"}, list : {<<>>},
+     after : {0}, before : {5}, now : {3}, ca : BOOLEAN, plist : {PosAll},
+     nslist : NLists \cup {EmptyNs}, wanted : {Alice, Empty}]
+
 \* time points: 0 = 0, 1 = a-1, 2 = a, 3 = b-1, 4 = b, 5 = 2^64-1
 Bounds == {0, 2, 4, 5}
 
@@ -198,6 +250,7 @@ IdentCases ==
     \*      with a certificate valid for everybody); `list' is the pattern list
     [entry : {"sshsig_key", "sshsig_caline"}, ctype : {"user"}, want : {"same"},
      list : LineLists, wanted : Wanteds \ {NoneP}, after : {0}, before : {5}, now : {3}]
+      \cup PatCases
       \cup
     \* (C) every validity window (including 0 and inverted ones) x every now
     [entry : {"validate", "sshsig"}, ctype : {"user"}, want : {"same"},
@@ -209,7 +262,8 @@ Range(s) == {s[i] : i \in DOMAIN s}
 IdentRule(k) ==
     /\ k.want # "other"
     /\ k.after <= k.now /\ k.now < k.before
-    /\ IF LineEntry(k) THEN LineMatch(k.list, k.wanted)
+    /\ IF k.entry = "sshsig_pat" THEN PRule(k.plist, k.wanted) /\ NRule(k.nslist)
+       ELSE IF LineEntry(k) THEN LineMatch(k.list, k.wanted)
        ELSE (k.wanted = NoneP \/ k.list = <<>> \/ k.wanted \in Range(k.list))
 
 Strip(n) == IF n.d \in {"lspace", "tspace"} THEN [n EXCEPT !.d = "plain"] ELSE n
@@ -229,7 +283,9 @@ IdentCheck(s, k) ==
       [] s = "vprinc"  ->
             LET dontcare == IF Variant = "empty_is_none"
                             THEN k.wanted \in {NoneP, Empty} ELSE k.wanted = NoneP
-            IN IF LineEntry(k) THEN (dontcare \/ LineMatch(k.list, k.wanted))
+            IN IF k.entry = "sshsig_pat"
+               THEN PListMatch(k.plist, k.wanted) /\ NListMatch(k.nslist)
+               ELSE IF LineEntry(k) THEN (dontcare \/ LineMatch(k.list, k.wanted))
                ELSE dontcare \/ k.list = <<>>
                     \/ Norm(k.wanted) \in {Norm(n) : n \in Range(k.list)}
 
